@@ -35,20 +35,52 @@ func isInputField(fs []*types.Var, f *types.Var) bool {
 
 // errEdge returns, for a call whose (last) result is an error, the blocks entered when that
 // error is non-nil (ok=false when no such test exists in the function).
-func errNonNilEdges(call ssa.Value) (edges []*ssa.BasicBlock) {
-	// find the error value: the call itself or an Extract of it
+// errValuesOf returns the SSA values holding a call's error result (the call itself, the
+// error-typed Extracts of a tuple, and phis/locals they are directly copied through).
+func errValuesOf(call ssa.Value) []ssa.Value {
 	var errVals []ssa.Value
+	errT := types.Universe.Lookup("error").Type()
 	if refs := call.Referrers(); refs != nil {
 		if _, isTuple := call.Type().(*types.Tuple); isTuple {
 			for _, r := range *refs {
-				if ex, ok := r.(*ssa.Extract); ok && types.Identical(ex.Type(), types.Universe.Lookup("error").Type()) {
+				if ex, ok := r.(*ssa.Extract); ok && types.Identical(ex.Type(), errT) {
 					errVals = append(errVals, ex)
 				}
 			}
-		} else {
+		} else if types.Identical(call.Type(), errT) {
 			errVals = append(errVals, call)
 		}
 	}
+	// one hop through a named-result / local cell: *cell = err ... t = *cell
+	for _, ev := range append([]ssa.Value(nil), errVals...) {
+		if refs := ev.Referrers(); refs != nil {
+			for _, r := range *refs {
+				if st, ok := r.(*ssa.Store); ok && st.Val == ev {
+					if cell, ok := st.Addr.(*ssa.Alloc); ok && cell.Referrers() != nil {
+						for _, r2 := range *cell.Referrers() {
+							if ld, ok := r2.(*ssa.UnOp); ok && ld.Op == token.MUL && ld.Block() == st.Block() && model.InstrDominates(st, ld) {
+								// only loads not separated from the store by another store in the block
+								sep := false
+								for _, x := range st.Block().Instrs {
+									if s2, ok := x.(*ssa.Store); ok && s2.Addr == st.Addr && s2 != st && model.InstrDominates(st, s2) && model.InstrDominates(s2, ld) {
+										sep = true
+									}
+								}
+								if !sep {
+									errVals = append(errVals, ld)
+								}
+							}
+						}
+					}
+				}
+			}
+		}
+	}
+	return errVals
+}
+
+func errNonNilEdges(call ssa.Value) (edges []*ssa.BasicBlock) {
+	errVals := errValuesOf(call)
 	for _, ev := range errVals {
 		refs := ev.Referrers()
 		if refs == nil {
